@@ -25,18 +25,25 @@ type params struct {
 	nsub, nns int
 	cfgs      []dkvh.Options
 	keyGroups int
+	group     int // > 1: mutations are handed to ApplyMutations in groups of this size (one call per run of equal subject keys)
 }
 
 func Run(k *report.Check) {
-	k.Rule = "operator tier (scheduler build, default schedule): a real Operator with event batch size 1 or 3 (t: 1-3; time-out 10 ms), 90-byte (t: also default) memtables, is fed every script up to the depth over {event whose handler result puts / deletes entry m of namespace n or the empty entry key of namespace nm (the two concatenate to the same bytes) (values distinct per step, sometimes empty) of key a or ab; the batch time-out passes; checkpoint at a barrier and a new operator deployed from it}; on every ProcessEventBatch the state supplied for each key must equal what the handler's own earlier mutations leave; every script ends with a checkpoint, a restore and three more events (key a, key ab, key a again: one batch when the batch size is 3). store tier: every sequence up to the depth of put/delete mutations over subject keys {a, aff, a00, \"\", ab} (prefixes of one another, empty), namespaces {n, nm, \"\"}, entry keys {\"\", k, k00}, values distinct per step and an empty value, applied through the real KeyedStateStore over a real dkv.DB with tiny thresholds (memtable of 2 entries, L0 trigger 1-2) and background flush/compaction completed or held back at every step; after every mutation GetState of every subject key is compared with a shadow map[subject][namespace][entry]. non-trivial = distinct (options, shadow contents) reached after an overwrite or delete of an entry that an older memtable or table still holds"
+	k.Rule = "operator tier (scheduler build, default schedule): a real Operator with event batch size 1 or 3 (t: 1-3; time-out 10 ms), 90-byte (t: also default) memtables, is fed every script up to the depth over {event whose handler result puts / deletes entry m of namespace n or the empty entry key of namespace nm (the two concatenate to the same bytes) (values distinct per step, sometimes empty) of key a or ab; the batch time-out passes; checkpoint at a barrier and a new operator deployed from it}; on every ProcessEventBatch the state supplied for each key must equal what the handler's own earlier mutations leave; every script ends with a checkpoint, a restore and three more events (key a, key ab, key a again: one batch when the batch size is 3). store tier: every sequence up to the depth of put/delete mutations over subject keys {a, aff, a00, \"\", ab} (prefixes of one another, empty), namespaces {n, nm, \"\"}, entry keys {\"\", k, k00}, values distinct per step and an empty value, applied through the real KeyedStateStore over a real dkv.DB with tiny thresholds (memtable of 2 entries, L0 trigger 1-2) and background flush/compaction completed or held back at every step; after every mutation GetState of every subject key is compared with a shadow map[subject][namespace][entry]. store-grouped part: the same over two subject keys with the mutations handed to ApplyMutations three at a time (one call per run of equal subject keys, grouped by namespace, entry keys k, j, k00 by position in the group), compared after every group. non-trivial = distinct (options, shadow contents) reached after an overwrite or delete of an entry that an older memtable or table still holds"
 	k.Assumptions = []string{"namespaces shorter than 256 bytes (the store length-prefixes them with one byte)", "order of namespaces and entries within GetState is not part of the property; grouping is"}
-	k.Budget(120, 1200)
+	k.Budget(160, 1200)
 	p := params{depth: k.Pick(4, 5), nsub: k.Pick(3, 4), nns: k.Pick(2, 3), keyGroups: 4,
 		cfgs: []dkvh.Options{{Mem: 60, Table: 80, L0: 2, Smallest: 4500, Ampl: 50}, {Mem: 60, Table: 40, L0: 1, Smallest: 4500, Ampl: 50},
 			{Mem: 60, Table: 80, L0: 1, Smallest: 9000, Ampl: 200}}} // minor compactions above a non-empty base level
-	k.Parts(2)
+	k.Parts(3)
 	od := k.Pick(4, 5)
 	k.ExploreSched(fmt.Sprintf("sched/operator/d=%d", od), mc.Config{Bound: 0, Deadline: k.Within(0.4), RecycleAfter: 1500}, oparams{depth: od, thorough: k.Thorough()}, operatorBody)
+	// a handler result carries several mutations per key: groups of three go through one
+	// ApplyMutations call per subject key (entry keys k, j, k00 by position in the group)
+	g := p
+	g.group, g.cfgs, g.nsub = 3, p.cfgs[:k.Pick(1, 3)], 2
+	g.depth = k.Pick(5, 6)
+	k.ExploreProc(fmt.Sprintf("store-grouped/d=%d", g.depth), mc.Config{Deadline: k.Within(0.3)}, g, storeBody)
 	k.ExploreProc(fmt.Sprintf("store/d=%d", p.depth), mc.Config{}, p, storeBody)
 }
 
@@ -121,6 +128,43 @@ func storeBody(c *mc.Ctx) {
 			}
 		}
 	}
+	type pend struct {
+		sub, ns string
+		mut     *handlerpb.StateMutation
+		apply   func() // the shadow's update
+	}
+	var pending []pend
+	flush := func() {
+		for len(pending) > 0 {
+			n := 1
+			for n < len(pending) && pending[n].sub == pending[0].sub {
+				n++
+			}
+			var call []*handlerpb.StateMutationNamespace
+			for _, pm := range pending[:n] {
+				var nsm *handlerpb.StateMutationNamespace
+				for _, m := range call {
+					if m.Namespace == pm.ns {
+						nsm = m
+					}
+				}
+				if nsm == nil {
+					nsm = &handlerpb.StateMutationNamespace{Namespace: pm.ns}
+					call = append(call, nsm)
+				}
+				nsm.Mutations = append(nsm.Mutations, pm.mut)
+				pm.apply()
+			}
+			if n > 1 {
+				c.Op("ApplyMutations(%q: %d mutations)", pending[0].sub, n)
+				c.Note("calls_with_several_mutations")
+			}
+			if err := store.ApplyMutations([]byte(pending[0].sub), call); err != nil {
+				c.Failf("ApplyMutations: %v", err)
+			}
+			pending = pending[n:]
+		}
+	}
 	nmut := len(subs) * len(nss) * 2 * 2 // entry keys {"" or k-ish} x {put,delete}
 	for step := 0; step < p.depth; step++ {
 		op := c.Choose(3 + nmut)
@@ -148,15 +192,21 @@ func storeBody(c *mc.Ctx) {
 			del := i%2 == 1
 			i /= 2
 			ek := entryKeys[(i%2)*(1+step%2)] // "" or, alternating by step, "k" / "k\x00"
+			if p.group > 1 && i%2 == 1 {
+				ek = []string{"k", "j", "k\x00"}[len(pending)%3]
+			}
 			i /= 2
 			ns := nss[i%len(nss)]
 			sub := subs[i/len(nss)]
 			mut := &handlerpb.StateMutation{}
+			var apply func()
 			if del {
 				c.Op("Delete(%q/%q/%q)", sub, ns, ek)
 				mut.Mutation = &handlerpb.StateMutation_Delete{Delete: &handlerpb.DeleteMutation{Key: []byte(ek)}}
-				if sh[sub] != nil && sh[sub][ns] != nil {
-					delete(sh[sub][ns], ek)
+				apply = func() {
+					if sh[sub] != nil && sh[sub][ns] != nil {
+						delete(sh[sub][ns], ek)
+					}
 				}
 			} else {
 				val := fmt.Sprintf("v%d", step)
@@ -165,20 +215,24 @@ func storeBody(c *mc.Ctx) {
 				}
 				c.Op("Put(%q/%q/%q=%q)", sub, ns, ek, val)
 				mut.Mutation = &handlerpb.StateMutation_Put{Put: &handlerpb.PutMutation{Key: []byte(ek), Value: []byte(val)}}
-				if sh[sub] == nil {
-					sh[sub] = map[string]map[string]string{}
+				apply = func() {
+					if sh[sub] == nil {
+						sh[sub] = map[string]map[string]string{}
+					}
+					if sh[sub][ns] == nil {
+						sh[sub][ns] = map[string]string{}
+					}
+					sh[sub][ns][ek] = val
 				}
-				if sh[sub][ns] == nil {
-					sh[sub][ns] = map[string]string{}
-				}
-				sh[sub][ns][ek] = val
-			}
-			if err := store.ApplyMutations([]byte(sub), []*handlerpb.StateMutationNamespace{{Namespace: ns, Mutations: []*handlerpb.StateMutation{mut}}}); err != nil {
-				c.Failf("ApplyMutations: %v", err)
 			}
 			id := sub + "/" + ns + "/" + ek
 			touched[id]++
 			shadowed = shadowed || touched[id] > 1
+			pending = append(pending, pend{sub, ns, mut, apply})
+			if len(pending) < p.group {
+				continue
+			}
+			flush()
 			if !held {
 				if err := db.WaitOnTasks(); err != nil {
 					c.Failf("background task failed: %v", err)
@@ -197,6 +251,7 @@ func storeBody(c *mc.Ctx) {
 			}
 		}
 	}
+	flush()
 	sync("sync(final)")
 	checkAll("after final sync")
 }
